@@ -35,6 +35,7 @@ type verifOp struct {
 	Via     string      `json:"via"`    // holdexec: whose execute callback is held: tick | flush | wait
 	During  []verifOp   `json:"during"` // holdexec: Adds issued while it is held
 	Waiter  bool        `json:"waiter"` // holdexec: a concurrent Wait is called while it is held
+	InHold  []verifOp   `json:"inhold"` // holdexec (via flush | wait): ticks / clock advances while it is held
 	ID      int         `json:"id"`
 	Size    int         `json:"size"`
 	N       int         `json:"n"`
@@ -186,6 +187,13 @@ func (p *verifProbe) untilFor(patience time.Duration, pred func() bool) bool {
 
 // quiet: every started flusher is parked in its select or has finished its deferred Flush, and every
 // non-empty batch taken out of the container has been executed.
+// quietBut: quiet, except that `held` batches taken out of the container sit in a held execute callback.
+func (p *verifProbe) quietBut(held int) bool {
+	p.executedCnt += held
+	defer func() { p.executedCnt -= held }()
+	return p.quiet()
+}
+
 func (p *verifProbe) quiet() bool {
 	if p.selects+p.stops != p.starts+p.ticks+p.commands {
 		return false
@@ -404,8 +412,9 @@ func (r *verifRig) doAdd(id, size int) {
 		k = len(p.adds)
 		p.adds = append(p.adds, verifAdd{ID: id, Call: p.next()})
 	})
-	r.add(id, size)
-	p.bump(func() { p.adds[k].Ret = p.next() })
+	if r.protect("Add", func() { r.add(id, size) }) {
+		p.bump(func() { p.adds[k].Ret = p.next() })
+	}
 }
 
 func (r *verifRig) doCall(kind string) {
@@ -415,12 +424,26 @@ func (r *verifRig) doCall(kind string) {
 		k = len(p.calls)
 		p.calls = append(p.calls, verifCall{Kind: kind, Call: p.next()})
 	})
+	ok := false
 	if kind == "wait" {
-		r.wait()
+		ok = r.protect("Wait", r.wait)
 	} else {
-		r.flush()
+		ok = r.protect("Flush", r.flush)
 	}
-	p.bump(func() { p.calls[k].Ret = p.next() })
+	if ok {
+		p.bump(func() { p.calls[k].Ret = p.next() })
+	}
+}
+
+// protect runs a call of the code under test; a panic escaping it is an observation (the call never returns).
+func (r *verifRig) protect(what string, f func()) (ok bool) {
+	defer func() {
+		if v := recover(); v != nil {
+			r.setHung(fmt.Sprintf("%s panicked: %v", what, v))
+		}
+	}()
+	f()
+	return true
 }
 
 func (r *verifRig) setHung(s string) {
@@ -587,6 +610,24 @@ func (r *verifRig) run(i int, op verifOp) {
 					blocked = true
 				} else {
 					time.Sleep(200 * time.Microsecond)
+				}
+			}
+		}
+		// ticks and clock advances while the caller-side execute is still running (the flusher may retire)
+		if op.Via != "tick" {
+			for _, o := range op.InHold {
+				if !held {
+					r.simple(o, true)
+				} else if o.Op == "advance" {
+					timex.VerifAdvance(time.Duration(o.N) * verifInterval)
+				} else if o.Op == "tick" {
+					tk := verifTick{Seq: p.next()}
+					tk.Delivered = r.deliver()
+					if !p.until(func() bool { return p.quietBut(1) }) {
+						r.setHung(what + ": tick while held: not quiescent")
+					}
+					tk.Done = p.next()
+					p.bump(func() { p.tickObs = append(p.tickObs, tk) })
 				}
 			}
 		}
